@@ -221,7 +221,7 @@ fn has_comb(n: &Node) -> bool {
   n.has_op(&|x| matches!(x, Node::Nary(_, _) | Node::Gate(_, _, _) | Node::FlatMap(_, _) | Node::ReadySetGo(_, _, _)))
 }
 
-fn c03_check(_ctx: &Ctx, c: &SeqCase) -> Report {
+pub(crate) fn c03_check(_ctx: &Ctx, c: &SeqCase) -> Report {
   let out = diff(c, DiffOpts::default());
   let mut rep = out.rep;
   // non-trivial: a combining operator with >= 2 inputs of which the driver order switches
@@ -364,7 +364,7 @@ fn c04_cfg(ctx: &Ctx) -> CaseCfg {
   }
 }
 
-fn c04_check(_ctx: &Ctx, c: &SeqCase) -> Report {
+pub(crate) fn c04_check(_ctx: &Ctx, c: &SeqCase) -> Report {
   let out = diff(c, DiffOpts { check_persub_counts: true, ..Default::default() });
   let mut rep = out.rep;
   if let (Some(r), Some(m)) = (&out.real, &out.model) {
@@ -471,7 +471,7 @@ fn stateful(n: &Node) -> bool {
   })
 }
 
-fn c14_check(_ctx: &Ctx, c: &SeqCase) -> Report {
+pub(crate) fn c14_check(_ctx: &Ctx, c: &SeqCase) -> Report {
   let out = diff(c, DiffOpts { check_tap: true, check_factories: true, check_persub_counts: true });
   let mut rep = out.rep;
   if let Some(r) = &out.real {
@@ -509,7 +509,7 @@ fn c06_inner_cfg(ctx: &Ctx) -> CaseCfg {
   }
 }
 
-fn c06_inner_check(_ctx: &Ctx, c: &SeqCase) -> Report {
+pub(crate) fn c06_inner_check(_ctx: &Ctx, c: &SeqCase) -> Report {
   let out = diff(c, DiffOpts::default());
   let mut rep = out.rep;
   if rep.fail.is_some() {
